@@ -123,7 +123,7 @@ def gen_arg(rng, params, services, tags, allow=("lit", "param", "multi", "svc", 
     if k == "gontainer":
         return "$gontainer"
     if k == "fn":
-        return rng.choice(['%env("VERIF_A")%', '%env("VERIF_MISSING", "dflt")%', '%envInt("VERIF_N")%', '%envInt("VERIF_MISSING", 5)%', 'x%env("VERIF_A")%y'])
+        return rng.choice(['%env("VERIF_A")%', '%env("VERIF_MISSING", "dflt")%', '%envInt("VERIF_N")%', '%envInt("VERIF_MISSING", 5)%', 'x%env("VERIF_A")%y', '%env("VERIF_E", "dflt")%', '[%env("VERIF_E")%]', '%envInt("VERIF_NEG")%'])
     return gen_literal(rng)
 
 
@@ -154,7 +154,9 @@ def gen_config(rng, nsvc=None, nparams=None, valid=True, imp="fx", scopes=True, 
         prev = snames[:i]
         s = {}
         if todo and rng.random() < 0.08:
-            services[n] = {"todo": True}
+            # a placeholder, sometimes carrying a draft definition that must stay inert
+            services[n] = rng.choice([{"todo": True}, {"todo": True}, {"todo": True, "constructor": "%s.NewA" % imp, "arguments": ["draft"]},
+                                      {"todo": True, "value": "%s.GlobalVal" % imp}, {"todo": True, "type": "*%s.Obj" % imp}])
             continue
         prev_live = [p for p in prev if not services[p].get("todo")]
         own_tags = []
